@@ -49,6 +49,7 @@ pub fn run(ctx: &mut Ctx) {
             run_trace(ctx, &format!("directed{i}"), ndocs, ops.clone(), Some("c06.spec"));
         }
     }
+    far_sessions(ctx);
     let n = ctx.budget(400, 30000);
     let maxlen = if ctx.thorough { 40 } else { 14 };
     for _ in 0..n {
@@ -56,5 +57,50 @@ pub fn run(ctx: &mut Ctx) {
         let ndocs = ctx.rng.gen_range(1..=3);
         let ops: Vec<TOp> = (0..len).map(|_| random_op(&mut ctx.rng, 0.75, 0.05)).collect();
         run_trace(ctx, "random", ndocs, ops, Some("c06.spec"));
+    }
+}
+
+/// Sessions far into their life: the receive counters are moved forward in the stored state (2^8, 2^16, 2^24 and their
+/// neighbours), then messages under the RIGHT key arrive whose IV counter is the next one, or one that agrees with the
+/// next one only in its low 8 / 16 / 24 bits (an old message "coming round again"), or is off by one.
+fn far_sessions(ctx: &mut Ctx) {
+    use crate::sess::*;
+    use ciborium::Value;
+    use isomdl::presentation::{device, reader, Stringify};
+    let mut rng = ctx.rng.clone();
+    let pki = crate::pki::Pki::generate(&mut rng);
+    let (m, _k) = issue(&mut rng, &pki, MDL, [(NS.to_string(), [("family_name".to_string(), Value::Text("Doe".into()))].into_iter().collect())].into_iter().collect(), isomdl::definitions::DigestAlgorithm::SHA256, false);
+    let first: std::collections::BTreeMap<String, Vec<String>> = [(NS.to_string(), vec!["family_name".to_string()])].into_iter().collect();
+    let Ok(e) = establish(documents_of(vec![m]), None, &first, Default::default(), Default::default()) else { ctx.rng = rng; return };
+    ctx.rng = rng;
+    let set = |v: &mut Value, name: &str, n: u64| { if let Value::Map(m) = v { for (k, x) in m.iter_mut() { if k.as_text() == Some(name) { *x = Value::Integer(n.into()); } } } };
+    let bases: Vec<u64> = if ctx.thorough { vec![255, 256, 257, 65_534, 65_535, 65_536, 65_537, 131_071, 16_777_215, 16_777_216, 16_777_300, 3_000_000_000, 4_294_967_000] } else { vec![255, 256, 65_535, 65_536, 65_600, 16_777_215, 16_777_216, 3_000_000_000] };
+    for base in bases {
+        let next = base + 1;
+        let mut crafted: Vec<u64> = vec![next, next % 256, next % 65_536, next % 16_777_216, next + 65_536, next + 256, next.wrapping_sub(65_536) % 4_294_967_296, base, next + 1, 1];
+        crafted.retain(|c| *c < 4_294_967_296);
+        crafted.dedup();
+        for c in crafted {
+            // to the device (sender: reader)
+            let mut v = state_value(&e.dev.stringify().unwrap());
+            set(&mut v, "reader_message_counter", base);
+            let Ok(mut dev) = device::SessionManager::parse(base64::encode(crate::runner::to_bytes(&v))) else { continue };
+            let (k, _) = dev_view(&dev);
+            let req = Value::Map(vec![(text("version"), text("1.0")), (text("docRequests"), arr(vec![Value::Map(vec![(text("itemsRequest"), Value::Tag(24, Box::new(bytes(&crate::runner::to_bytes(&Value::Map(vec![(text("docType"), text(MDL)), (text("nameSpaces"), Value::Map(vec![(text(NS), Value::Map(vec![(text("family_name"), Value::Bool(false))]))]))]))))))])]))]);
+            let msg = session_data(Some(&aes_encrypt(&k.sk_reader, &iso_iv(false, c as u32), &crate::runner::to_bytes(&req))), None);
+            let obs = match catch(|| dev.handle_request(&msg)) { Ok(o) => Value::Bool(!o.errors.contains_key("decryption_errors")), Err(p) => arr(vec![text("panic"), text(&p)]) };
+            let args = vec![uint(0), uint(base), uint(c)];
+            ctx.case("far_session:to_device", serde_json::json!({"receive_counter": base, "message_counter": c}), obs, Some(("c06.far", args.clone())), Some(("c06.spec_far", args)), true);
+            // to the reader (sender: device)
+            let mut v = state_value(&e.rdr.stringify().unwrap());
+            set(&mut v, "device_message_counter", base);
+            let Ok(mut rdr) = reader::SessionManager::parse(base64::encode(crate::runner::to_bytes(&v))) else { continue };
+            let rk = rdr_view(&rdr);
+            let resp = Value::Map(vec![(text("version"), text("1.0")), (text("status"), uint(0))]);
+            let msg = session_data(Some(&aes_encrypt(&rk.sk_device, &iso_iv(true, c as u32), &crate::runner::to_bytes(&resp))), None);
+            let obs = match catch(|| rdr.handle_response(&msg)) { Ok(o) => Value::Bool(!o.errors.contains_key("decryption_errors")), Err(p) => arr(vec![text("panic"), text(&p)]) };
+            let args = vec![uint(1), uint(base), uint(c)];
+            ctx.case("far_session:to_reader", serde_json::json!({"receive_counter": base, "message_counter": c}), obs, Some(("c06.far", args.clone())), Some(("c06.spec_far", args)), true);
+        }
     }
 }
